@@ -222,6 +222,30 @@ class C07(Prop):
                                     ['link', 'Article', [3], 'tags', 'Tag', [3]], ['flush'],
                                     ['unlink', 'Article', [3], 'tags', 'Tag', [3]], ['commit']]
             yield {'spec': spec, 'autoflush': rng.random() < 0.4, 'program': prog}
+        for c in self.gen_m2m_family(rng, 30 if tier == 'quick' else 1000):
+            yield c
+
+    def gen_m2m_family(self, rng, n):
+        """every transaction changes several pairs in 2-3 flushes, pairs are unlinked and re-linked within one transaction"""
+        pairs = [(a, t) for a in (1, 2, 3) for t in (1, 2, 3)]
+        for _ in range(n):
+            spec = envs.shape_m2m({'strategy': rng.choice(['validity', 'subquery'])}, plugins=[])
+            spec['shape'] = 'm2m'
+            prog = [['add', 'Article', [i], {'name': i}] for i in (1, 2, 3)] + [['add', 'Tag', [i], {'name': i}] for i in (1, 2, 3)] + [['commit']]
+            linked = set()
+            for _tx in range(rng.choice([2, 3])):
+                for _fl in range(rng.choice([2, 3, 4])):
+                    for (a, t) in rng.sample(pairs, rng.choice([1, 2, 3])):
+                        side = rng.choice([['Article', [a], 'tags', 'Tag', [t]], ['Tag', [t], 'articles', 'Article', [a]]])
+                        if (a, t) in linked:
+                            prog.append(['unlink'] + side)
+                            linked.discard((a, t))
+                        else:
+                            prog.append(['link'] + side)
+                            linked.add((a, t))
+                    prog.append(['flush'])
+                prog.append(['commit'])
+            yield {'spec': spec, 'autoflush': False, 'program': prog, 'family': 'm2m_relink'}
 
     def run_case(self, case):
         v = run_one(case, True)
